@@ -16,7 +16,7 @@
  *   G<seed>x<n>  n bytes of the xorshift stream for seed
  *   C<hh>x<n>    byte hh repeated n times
  *   T<a>,<b>,... token bag: each token two bytes big endian
- * Byte strings in the log: keys always hex; values hex when <= 96 bytes,
+ * Byte strings in the log: keys always hex; values hex when <= 1024 bytes,
  * otherwise {"n":len,"h":"fnv64"}.
  */
 #define _GNU_SOURCE
@@ -96,7 +96,7 @@ static uint64_t fnv64(const uint8_t *b, size_t n) {
 	return h;
 }
 static void sb_val(struct sbuf *s, const uint8_t *b, size_t n) {
-	if (n <= 96) sb_hex(s, b, n);
+	if (n <= 1024) sb_hex(s, b, n);
 	else sb_printf(s, "{\"n\":%zu,\"h\":\"%016llx\"}", n, (unsigned long long)fnv64(b, n));
 }
 static void sb_emit(struct sbuf *s) {
@@ -761,7 +761,7 @@ static void run_line(char *line) {
 		sorters[si] = mtbl_sorter_init(o);
 		mtbl_sorter_options_destroy(&o);
 		__atomic_store_n(&n_sorter_adds, 0, __ATOMIC_SEQ_CST);
-		sb_printf(&s, "{\"e\":\"SInit\",\"s\":%d,\"maxmem\":\"%s\",\"tmpdir\":\"%s\",\"merge\":%ld,\"pool\":%ld}", si, ARG(2), ARG(3), IARG(4), IARG(6));
+		sb_printf(&s, "{\"e\":\"SInit\",\"s\":%d,\"maxmem\":\"%s\",\"tmpdir\":\"%s\",\"merge\":%ld,\"failtok\":%ld,\"pool\":%ld}", si, ARG(2), ARG(3), IARG(4), IARG(5), IARG(6));
 	} else if (!strcmp(op, "s_add")) {
 		int si = IARG(1);
 		struct bytes k = parse_bytes(ARG(2)), v = parse_bytes(ARG(3));
